@@ -207,16 +207,49 @@ class World:
                     self.max_occ = self.occ
                 world.on_executor_submit(self, fn)
                 ex = self
+                tagname = world._tag_enter(fn) if self.role == 'request' and \
+                    hasattr(world, 'task_tag') else False
 
                 def run(*a, **k):
                     try:
                         return fn(*a, **k)
                     finally:
                         ex.occ -= 1
+                        if tagname is not False:
+                            world.tag_occ[tagname] -= 1
                 run._task = fn
                 return super().submit(run, *args, **kwargs)
 
         return CountingExecutor
+
+    def _observe_tags(self):
+        """Remember which semaphore (stage or tag) each request task was
+        submitted under, so occupancy can be bounded per semaphore."""
+        world = self
+        be = self.manager._request_executor
+        real = be.submit
+        self.task_tag = {}
+        self.tag_occ = {}
+
+        def submit(task, tag=None, block=True):
+            world.task_tag[id(task)] = getattr(tag, 'name', None)
+            return real(task, tag=tag, block=block)
+        be.submit = submit
+
+    def _tag_enter(self, task):
+        name = self.task_tag.get(id(task), None) if hasattr(self, 'task_tag') else None
+        n = self.tag_occ.get(name, 0) + 1
+        self.tag_occ[name] = n
+        cfg = self.config
+        lim = {None: cfg['max_request_queue_size'],
+               'in_memory_upload': cfg['max_in_memory_upload_chunks'],
+               'in_memory_download': cfg['max_in_memory_download_chunks']}.get(name)
+        if lim is not None and n > lim:
+            self.violation('C10', 'tag-occupancy',
+                           '%d queued-or-running request tasks under the %s limit of %d'
+                           % (n, name or 'max_request_queue_size', lim),
+                           {'variant': name or 'stage'})
+        return name
 
     def on_executor_submit(self, ex, task):
         cfg = self.config
@@ -224,6 +257,9 @@ class World:
             return
         if ex.role == 'io':
             if ex.occ > cfg['max_io_queue_size']:
+                self.violation('C10', 'io-queue',
+                               'io executor holds %d tasks > max_io_queue_size=%d'
+                               % (ex.occ, cfg['max_io_queue_size']))
                 self.violation('C11', 'io-queue',
                                'io executor holds %d tasks > max_io_queue_size=%d'
                                % (ex.occ, cfg['max_io_queue_size']))
@@ -425,6 +461,7 @@ class World:
         self.manager = TransferManager(self.s3, cfg, osutil,
                                        executor_cls=self.make_executor_cls())
         self._wrap_controller()
+        self._observe_tags()
         script = sc.get('driver') or self.default_script()
         use_with = any(a[0] in ('with_raise', 'use_with') for a in script)
         try:
